@@ -25,12 +25,26 @@ Qed.
 
 Definition nsplit (R p : Z) : Z := bd_split R p.
 
-Lemma nsplit_bounds R p : 1 <= R -> 0 <= p <= 255 -> 1 <= nsplit R p <= R.
+Lemma nsplit_bounds R p : 128 <= R <= 255 -> 0 <= p <= 255 -> 1 <= nsplit R p <= R - 1.
 Proof.
   intros HR Hp. unfold nsplit, bd_split.
-  assert (0 <= (R - 1) * p / 256 <= R - 1).
-  { split; [apply Z.div_pos; nia|]. apply Z.div_le_upper_bound; nia. }
+  assert (0 <= (R - 1) * p / 256 <= R - 2).
+  { split; [apply Z.div_pos; nia|].
+    assert ((R - 1) * p / 256 < R - 1) by (apply Z.div_lt_upper_bound; nia). lia. }
   lia.
+Qed.
+
+(** normalising any range 1..255 gives a range in 128..255 *)
+Lemma norm_range_sweep :
+  forallb (fun r => let '(r2, _) := norm_loop 8 r 0 in (128 <=? r2) && (r2 <=? 255)) (zrange 1 255) = true.
+Proof. vm_compute. reflexivity. Qed.
+
+Lemma norm_range r : 1 <= r <= 255 -> 128 <= fst (norm_loop 8 r 0) <= 255.
+Proof.
+  intros H.
+  pose proof (proj1 (forallb_forall _ _) norm_range_sweep r (in_zrange 1 255 r ltac:(lia) ltac:(lia))) as Hx.
+  cbv beta in Hx. destruct (norm_loop 8 r 0) as [r2 sh]. cbn [fst].
+  apply andb_true_iff in Hx. destruct Hx as [H1 H2]. apply Z.leb_le in H1, H2. lia.
 Qed.
 
 (** * abstract encoder *)
@@ -64,63 +78,72 @@ Fixpoint adec (probs : list Z) (st : Z * Z * Z) : list bool :=
   | p :: tl => let '(b, st1) := aget p st in b :: adec tl st1
   end.
 
-Lemma aput_k_mono b p R L k : let '(_, _, k') := aput b p (R, L, k) in k <= k'.
-Proof.
-  unfold aput.
-  destruct (norm_loop_spec 8 (if b then R - nsplit R p else nsplit R p) 0) as (t & Ht & ->). lia.
-Qed.
-
-Lemma aenc_k_mono ps : forall R L k, let '(_, _, k') := aenc ps (R, L, k) in k <= k'.
-Proof.
-  induction ps as [|[b p] tl IH]; intros R L k; cbn [aenc]; [lia|].
-  pose proof (aput_k_mono b p R L k) as H1.
-  destruct (aput b p (R, L, k)) as [[R1 L1] k1].
-  specialize (IH R1 L1 k1). destruct (aenc tl (R1, L1, k1)) as [[R2 L2] k2]. lia.
-Qed.
-
 Definition probs_ok (ps : list (bool * Z)) : Prop := Forall (fun bp => 0 <= snd bp <= 255) ps.
+
+(** one encoder step, unfolded *)
+Lemma aput_spec b p R L k : 128 <= R <= 255 -> 0 <= p <= 255 ->
+  exists t, 0 <= t /\
+    let s := nsplit R p in
+    let R1 := if b then R - s else s in
+    let L1 := if b then L + s else L in
+    aput b p (R, L, k) = (R1 * 2 ^ t, L1 * 2 ^ t, k + t) /\
+    norm_loop 8 R1 0 = (R1 * 2 ^ t, t) /\ 1 <= R1 <= 255 /\ 128 <= R1 * 2 ^ t <= 255.
+Proof.
+  intros HR Hp. pose proof (nsplit_bounds R p HR Hp) as Hs. cbv zeta.
+  set (R1 := if b then R - nsplit R p else nsplit R p).
+  assert (HR1 : 1 <= R1 <= 255) by (unfold R1; destruct b; lia).
+  destruct (norm_loop_spec 8 R1 0) as (t & Ht & Hn).
+  exists t. split; [exact Ht|].
+  pose proof (norm_range R1 HR1) as Hr. rewrite Hn in Hr. cbn [fst] in Hr.
+  unfold aput. fold R1. rewrite Hn. replace (0 + t) with t by lia.
+  repeat split; try lia.
+Qed.
 
 (** Any X inside the final interval (at scale J) is inside every earlier interval and
     is decoded, from the matching decoder state, to the encoded bits. *)
-Theorem abs_roundtrip : forall ps R L k, probs_ok ps -> 1 <= R ->
+Theorem abs_roundtrip : forall ps R L k, probs_ok ps -> 128 <= R <= 255 ->
   let '(Rf, Lf, kf) := aenc ps (R, L, k) in
+  k <= kf /\ 128 <= Rf <= 255 /\
   forall J X, kf <= J -> Lf * 2 ^ (J - kf) <= X < (Lf + Rf) * 2 ^ (J - kf) ->
   L * 2 ^ (J - k) <= X < (L + R) * 2 ^ (J - k) /\
   adec (map snd ps) (R, X - L * 2 ^ (J - k), J - k) = map fst ps.
 Proof.
   induction ps as [|[b p] tl IH]; intros R L k Hps HR; cbn [aenc].
-  - intros J X HJ HX. split; [exact HX|reflexivity].
+  - split; [lia|]. split; [exact HR|]. intros J X HJ HX. split; [exact HX|reflexivity].
   - inversion Hps as [|? ? Hp Htl]; subst. cbn [snd] in Hp.
     pose proof (nsplit_bounds R p HR Hp) as Hs.
-    pose proof (aput_k_mono b p R L k) as Hk1.
-    unfold aput in *.
-    destruct (norm_loop_spec 8 (if b then R - nsplit R p else nsplit R p) 0) as (t & Ht & Hn).
-    rewrite Hn in *. clear Hn.
+    destruct (aput_spec b p R L k HR Hp) as (t & Ht & Hput & Hn & HR1 & HR2). cbv zeta in *.
+    rewrite Hput.
     set (s := nsplit R p) in *.
     set (R1 := if b then R - s else s) in *.
     set (L1 := if b then L + s else L) in *.
-    assert (HR1 : 1 <= R1 * 2 ^ t \/ R1 = 0).
-    { assert (0 <= R1) by (unfold R1; destruct b; lia).
-      destruct (Z.eq_dec R1 0); [right; assumption|left].
-      assert (1 <= 2 ^ t) by (apply (Z.pow_le_mono_r 2 0 t); lia). nia. }
-    pose proof (aenc_k_mono tl (R1 * 2 ^ t) (L1 * 2 ^ t) (k + (0 + t))) as Hk2.
-    destruct HR1 as [HR1|HR1].
-    2:{ (* empty interval: nothing can lie inside the final one *)
-      rewrite HR1 in *. cbn [Z.mul] in *.
-      specialize (IH 0 (L1 * 2 ^ t) (k + (0 + t)) Htl).
-      destruct (aenc tl (0, L1 * 2 ^ t, k + (0 + t))) as [[Rf Lf] kf] eqn:Ef.
-      intros J X HJ HX. exfalso.
-      (* with R = 0 every later range is 0 as well: the final interval is empty *)
-      assert (Hz : forall ps2 L2 k2, let '(R3, _, _) := aenc ps2 (0, L2, k2) in R3 = 0).
-      { clear. induction ps2 as [|[b2 p2] tl2 IH2]; intros L2 k2; cbn [aenc]; [reflexivity|].
-        unfold aput, nsplit, bd_split.
-        replace (1 + (0 - 1) * p2 / 256) with (1 + - p2 / 256) by (f_equal; f_equal; lia).
-        destruct b2.
-        - (* R - s < 0 is impossible to renormalise to a positive range; but the value is irrelevant: *)
-          destruct (norm_loop_spec 8 (0 - (1 + - p2 / 256)) 0) as (t2 & _ & ->).
-          (* a negative or zero range stays non-positive; we do not need more than R3 = 0 when s = 0..; give up precision: *)
-          admit.
-        - admit. }
-      admit. }
-    admit.
-Admitted.
+    specialize (IH (R1 * 2 ^ t) (L1 * 2 ^ t) (k + t) Htl HR2).
+    destruct (aenc tl (R1 * 2 ^ t, L1 * 2 ^ t, k + t)) as [[Rf Lf] kf].
+    destruct IH as (Hk & HRf & IH).
+    split; [lia|]. split; [exact HRf|].
+    intros J X HJ HX. specialize (IH J X HJ HX). destruct IH as [Hin Hdec].
+    (* scale bookkeeping: 2^(J-k) = 2^t * 2^(J-(k+t)) *)
+    assert (Epow : 2 ^ (J - k) = 2 ^ t * 2 ^ (J - (k + t))).
+    { rewrite <- Z.pow_add_r by lia. f_equal. lia. }
+    set (q := 2 ^ (J - (k + t))) in *.
+    assert (Hq : 0 < q) by (unfold q; apply Z.pow_pos_nonneg; lia).
+    assert (Hin1 : L1 * 2 ^ (J - k) <= X < (L1 + R1) * 2 ^ (J - k)).
+    { rewrite Epow. replace (L1 * (2 ^ t * q)) with (L1 * 2 ^ t * q) by ring.
+      replace ((L1 + R1) * (2 ^ t * q)) with ((L1 * 2 ^ t + R1 * 2 ^ t) * q) by ring. exact Hin. }
+    set (w := 2 ^ (J - k)) in *.
+    assert (Hw : 0 < w) by (unfold w; apply Z.pow_pos_nonneg; lia).
+    split.
+    + unfold L1, R1 in Hin1. destruct b; nia.
+    + cbn [map fst snd adec]. unfold aget. fold s. fold w.
+      assert (Eb : (s * w <=? X - L * w) = b).
+      { unfold L1, R1 in Hin1. destruct b.
+        - apply Z.leb_le. nia.
+        - apply Z.leb_gt. nia. }
+      rewrite Eb. fold R1. rewrite Hn.
+      f_equal.
+      replace (if b then X - L * w - s * w else X - L * w) with (X - L1 * w)
+        by (unfold L1; destruct b; ring).
+      replace (X - L1 * w) with (X - L1 * 2 ^ t * q) by (unfold w; rewrite Epow; ring).
+      replace (J - k - t) with (J - (k + t)) by lia.
+      exact Hdec.
+Qed.
